@@ -250,8 +250,9 @@ func metaScenario(sc *metaScn, idx int) {
 		}
 	}
 	steps := 8 + rng.Intn(14)
+	sc.quietOwner = sc.kind == "grp" && (sc.focus == "C05" || sc.focus == "C07") && idx%4 == 3
 	for i := 0; i < steps && !sc.deleted; i++ {
-		if rng.Intn(5) == 0 {
+		if rng.Intn(5) == 0 && !sc.quietOwner {
 			if sc.metaReload() {
 				r.Hit("reload_between_steps")
 				sc.after(sc.steps[len(sc.steps)-1])
